@@ -398,7 +398,7 @@ func C10FinalizerFirst() {
 }
 
 // C10ConsumerOrder: a handler registered with a consumer FUNCTION (AddHandler). The consumer is slow: it
-// holds the first message while a burst of 13 more arrives, then catches up, and two more messages arrive
+// holds the first message while a burst of 14 more arrives, then catches up, and two more messages arrive
 // while it does. What the consumer sees is a subsequence of the arrival order (never a message before an
 // earlier one, never one twice), and it contains at least the messages that fit the documented queue of 10.
 func C10ConsumerOrder() {
@@ -418,13 +418,10 @@ func C10ConsumerOrder() {
 		mu.Unlock()
 		return nil
 	}, nil)
-	// the burst arrives under the default schedule; the delay budget goes to the catching-up phase
-	sym.Schedules(false)
-	for i := 1; i <= 14; i++ {
+	for i := 1; i <= 15; i++ {
 		s.inject(NewMessage(NewHeader(Post, 3, 1, 1, uint32(i)), nil))
 	}
 	sym.Quiesce()
-	sym.Schedules(true)
 	// the consumer resumes while two more messages arrive
 	go func() { gate <- true }()
 	s.inject(NewMessage(NewHeader(Post, 3, 1, 1, 16), nil))
